@@ -220,7 +220,7 @@ def run_case(case, seed, limit):
             coeffs = ufl.algorithms.extract_coefficients(expr)
             kept = ufl.algorithms.extract_coefficients(ufl.algorithms.expand_derivatives(expr))
             want = {"num_points": int(pts.shape[0]), "entity_dimension": int(pts.shape[1]), "value_shape": list(expr.ufl_shape),
-                    "num_components": int(np.prod(expr.ufl_shape, dtype=int)),
+                    "num_components": len(expr.ufl_shape),      # ufcx.h: value_shape[num_components]; what the C descriptor holds
                     "rank": len(ufl.algorithms.extract_arguments(expr)), "num_coefficients": len(kept),
                     "original_coefficient_positions": [coeffs.index(c) for c in kept],
                     "num_constants": len(ufl.algorithms.analysis.extract_constants(expr))}
